@@ -34,6 +34,11 @@ class GhostRequest(object):
             raise InvalidTag("ghost: malformed parameters")
         if b == 'abort':
             raise AbortOther("ghost: cannot be processed")
+        if b == 'crash':
+            raise ValueError("ghost: the decoder tripped over malformed parameters without diagnosing them")
+
+class GhostRequestCrash(GhostRequest):
+    behaviour = 'crash'
 
 class GhostRequestReject(GhostRequest):
     behaviour = 'reject'
@@ -41,7 +46,7 @@ class GhostRequestReject(GhostRequest):
 class GhostRequestAbort(GhostRequest):
     behaviour = 'abort'
 
-_REQ = {'ok': GhostRequest, 'reject': GhostRequestReject, 'abort': GhostRequestAbort}
+_REQ = {'ok': GhostRequest, 'reject': GhostRequestReject, 'abort': GhostRequestAbort, 'crash': GhostRequestCrash}
 
 def Types(known, dec):
     """the service table: service 12 is known (or not)"""
@@ -83,6 +88,8 @@ def dispatch_ok(a, apdu, known, decode, replies, forwarded):
         return len(forwarded) == 0 and one(6, 4)                    # reject: invalid tag
     if decode == 'abort':
         return len(forwarded) == 0 and one(7, 0)
+    if decode == 'crash':
+        return len(forwarded) == 0 and one(6, 0)                    # reject: other -- any other decoding failure is still answered
     if len(forwarded) != 1 or forwarded[0][0].decoded_from is not apdu:
         return False
     if a.ghost_app == 'ok':
@@ -90,7 +97,7 @@ def dispatch_ok(a, apdu, known, decode, replies, forwarded):
     return one(6, 5) if a.ghost_app == 'reject' else one(7, 0)
 
 for _known in (True, False):
-    for _dec in (OUTCOMES if _known else ('ok',)):
+    for _dec in ((OUTCOMES + ('crash',)) if _known else ('ok',)):
         contract("bacpypes.appservice:ApplicationServiceAccessPoint.indication",
             name="bacpypes.appservice:ApplicationServiceAccessPoint.indication[confirmed, %s, decoding %s]" % ("known service" if _known else "unknown service", _dec),
             params={"self": ASAP(), "apdu": ConfReq(apduSeg=Const(False), apduMor=Const(False), apduService=Const(12), pduData=Bytes(0, 4, mutable=True))},
